@@ -394,6 +394,10 @@ def distance_fast(s1, s2, only_ub=False, **kwargs):
     s1 = util_numpy.verify_np_array(s1)
     s2 = util_numpy.verify_np_array(s2)
     s = DTWSettings(**kwargs)
+    # The C library encodes "no maximal length difference" as 0 and tests it after only_ub:
+    # apply the test here, as in :meth:`distance`
+    if abs(len(s1) - len(s2)) > s.adj_max_length_diff:
+        return inf
     # Move data to C library
     if s.use_ndim is False:
         d = dtw_cc.distance(s1, s2, only_ub=only_ub, **s.c_kwargs())
@@ -538,6 +542,9 @@ def warping_paths_fast(s1, s2, psi_neg=True, keep_int_repr=False, compact=False,
     c = len(s2)
     _check_library(raise_exception=True)
     settings = DTWSettings.for_dtw(s1, s2, **kwargs)
+    if abs(r - c) > settings.adj_max_length_diff:
+        # As in :meth:`warping_paths` (the C library does not test the length difference here)
+        return inf
     if compact:
         wps_width = dtw_cc.wps_width(r, c, **settings.c_kwargs())
         wps_compact = np.full((len(s1)+1, wps_width), inf)
